@@ -1,6 +1,6 @@
 import MypyVerif.Proofs.LangSoundS
 /-!
-# C01 — accepted programs do not go wrong (MiniPy fragment, stage 1)
+# C01 — accepted programs do not go wrong (MiniPy fragment, stages 1–3)
 
 `soundness`: for every well-formed program `P` that the algorithmic checker `tc` (the transcription of mypy's
 rules on the fragment, `Model/LangTc.lean`) accepts with probe type map `tm`, for **every** fuel, every consistent
